@@ -290,11 +290,17 @@ func NewClientConfig() *ClientConfig {
 			}, nil)
 		},
 		CompSelector: func(options []SessionCompression) SessionCompression {
+			if len(options) == 0 {
+				return SessionCompressionNone
+			}
 			return options[0]
 		},
 		EncryptSelector: func(options []SessionEncryption) SessionEncryption {
 			if contains(options, SessionEncryptionTLS) {
 				return SessionEncryptionTLS
+			}
+			if len(options) == 0 {
+				return SessionEncryptionNone
 			}
 			return options[0]
 		},
